@@ -122,7 +122,7 @@ m = {
     "engines": [{"name": "pvc", "path": "pvc/", "serves_properties": sorted(CLAIMED), "kind_free_text": "modular symbolic executor for a Python subset generating verification conditions from the real ptera source, discharged with z3 / cvc5"}],
     "checks": checks,
     "not_applicable": na,
-    "notes": "See DESIGN.md. known_findings.json lists genuine defects recorded or fixed (74 unguarded fix: commits in /repo). BACKLOG.md lists agent-reported observations and their status.",
+    "notes": "See DESIGN.md. known_findings.json lists genuine defects recorded or fixed (75 unguarded fix: commits in /repo). BACKLOG.md lists agent-reported observations and their status.",
 }
 json.dump(m, open(os.path.join(ROOT, "MANIFEST.json"), "w"), indent=1)
 print("claimed", sorted(CLAIMED), "not claimed", [x["property_id"] for x in na])
